@@ -82,7 +82,8 @@ BOUNDS = (
     "exchange} x fault kind {none, method raises, non-Stream return, declared header None, process raises, process "
     "logs then raises, unknown method, bad request version, protocol-version mismatch/absent, bad parameter "
     "schema, None for a required parameter} x fault position {init, step 1..3} x client {0..%d ticks/exchanges in "
-    "lock-step, then close | cancel} x client on_log callback raising at log message {never, 1..4} {once | from then on}; one such call "
+    "lock-step, then close | cancel} x client on_log callback raising at log message {never, 1..4} {once | from then on} x (exchange streams) the client's n-th "
+    "input batch has another schema than the stream {never, 1..k} {other type | other column | other nullability} {gives up | carries on}; one such call "
     "followed by one well-formed call {unary | producer stream}; producer yields %d items; unbounded channel buffers"
     % (_K, _TOTAL)
 )
@@ -130,11 +131,16 @@ class Script:
     second_is_stream: bool = False
     log_at: int = 0  # 0: the client's on_log never raises; n: it raises on the n-th message (the service then logs)
     log_sticky: bool = False  # True: it keeps raising on every later message too
+    bad_at: int = 0  # exchange streams: the client's n-th exchange() passes a batch of another schema (0: never)
+    bad_kind: int = 0  # 0: same column, other type; 1: other column name; 2: same column, nullability differs
+    bad_retry: bool = False  # True: the client swallows that exchange's error and goes on exchanging
 
     def describe(self) -> str:
         s = f"{_SHAPE_NAME[self.shape]} / {_KIND_NAME[self.kind]}" + (f" at step {self.pos}" if self.pos else "")
         if self.shape != UNARY:
             s += f", client: {self.k} tick(s) then {'cancel' if self.cancel else 'close'}"
+        if self.bad_at:
+            s += f", exchange {self.bad_at} passes a batch of another schema ({_BAD_NAME[self.bad_kind]})" + (", client carries on after the error" if self.bad_retry else "")
         if self.log_at:
             s += f", on_log raises at message {self.log_at}" + (" and every later one" if self.log_sticky else "")
         return s
@@ -159,6 +165,17 @@ class Hdr(ArrowSerializableDataclass):
 
 
 _OUT = pa.schema([pa.field("v", pa.int64())])
+
+_BAD_NAME = {0: "column v: string", 1: "column w instead of v", 2: "column v: int64 not null"}
+
+
+def _bad_batch(kind: int, j: int) -> pa.RecordBatch:
+    """An input batch whose schema differs from the exchange stream's declared input schema ``_OUT``."""
+    if kind == 0:
+        return pa.record_batch({"v": ["a"]})
+    if kind == 1:
+        return pa.record_batch({"w": [j]})
+    return pa.record_batch({"v": [j]}, schema=pa.schema([pa.field("v", pa.int64(), nullable=False)]))
 
 
 def _logs_on() -> bool:
@@ -309,7 +326,18 @@ def _drive_session(session: Any, sc: Script, seen: dict) -> None:
 
     try:
         for j in range(sc.k):
-            if sc.shape == EXCH:
+            if sc.shape == EXCH and sc.bad_at == j + 1:
+                # a batch whose schema is not the one the stream declares.  As the first input it opens the input
+                # stream with that schema (the server refuses it); later, pyarrow's writer refuses it locally,
+                # before anything is written — a failure on the client side of an otherwise healthy connection
+                try:
+                    session.exchange(AnnotatedBatch(_bad_batch(sc.bad_kind, j)))
+                except Exception as e:  # noqa: BLE001
+                    if not sc.bad_retry:
+                        raise
+                    seen["swallowed"] = type(e).__name__
+                    continue
+            elif sc.shape == EXCH:
                 session.exchange(AnnotatedBatch.from_pydict({"v": [j]}, schema=_OUT))
             else:
                 session.tick()
@@ -552,7 +580,7 @@ def _untraced() -> Any:
 def _run(sc: Script) -> str:
     """Run the script on one in-memory connection.  '' = property holds, else what broke."""
     with _untraced():
-        for v in (sc.shape, sc.kind, sc.pos, sc.ret, sc.k, sc.cancel, sc.second_is_stream, sc.log_at, sc.log_sticky):
+        for v in (sc.shape, sc.kind, sc.pos, sc.ret, sc.k, sc.cancel, sc.second_is_stream, sc.log_at, sc.log_sticky, sc.bad_at, sc.bad_kind, sc.bad_retry):
             if type(v) is not int and type(v) is not bool:  # (real type() here: tracing is off)
                 raise TypeError("script must be concrete below the case split")
         return _run_concrete(sc)
@@ -846,3 +874,22 @@ def client_log_callback_raises(shape: int, log_at: int, sticky: bool, k: int, ca
     """
     a = {"shape": _conc(shape, 0, 3), "log_at": _conc(log_at, 1, _LOG_MAX), "sticky": _concb(sticky), "k": _conc(k, 0, _K), "cancel": _concb(cancel), "second_is_stream": _concb(second_is_stream)}
     return _run(_sc_log(a)) == ""
+
+
+def _sc_badinput(a: dict) -> Script:
+    return Script(EXCH, NONE, 0, 0, a["k"], bool(a["cancel"]), bool(a["second_is_stream"]), bad_at=a["bad_at"], bad_kind=a["bad_kind"], bad_retry=bool(a["retry"]))
+
+
+@cond(q=90, t=300, encoded=[cli.StreamSession.exchange, cli.StreamSession._write_batch, cli.StreamSession.close, cli.StreamSession.cancel, srv.RpcServer._serve_stream],
+      bound="exchange stream; the client's exchange number 1..k (k <= %d) passes a batch of another schema {other type | other column | other nullability}: "
+            "as the first input it opens the input stream (server-side refusal), later pyarrow's writer refuses it locally before anything is written; "
+            "the client then gives up or carries on exchanging x {close, cancel} x 2 follow-ups" % _K,
+      replay=lambda a: _real(_sc_badinput(a)),
+      signature=lambda a, c: _sig("C04:client-input-batch-refused:" + ("first-exchange" if a["bad_at"] == 1 else "later-exchange")))
+def exchange_input_batch_refused(bad_at: int, bad_kind: int, retry: bool, k: int, cancel: bool, second_is_stream: bool) -> bool:
+    """
+    pre: 1 <= k <= _K and 1 <= bad_at <= k and 0 <= bad_kind <= 2
+    post: _
+    """
+    a = {"bad_at": _conc(bad_at, 1, _K), "bad_kind": _conc(bad_kind, 0, 2), "retry": _concb(retry), "k": _conc(k, 1, _K), "cancel": _concb(cancel), "second_is_stream": _concb(second_is_stream)}
+    return _run(_sc_badinput(a)) == ""
